@@ -32,7 +32,7 @@ ASSUMPTIONS = [
     "usable = the process can create and write the directories",
 ]
 
-FORMS = ["abs", "rel", "rel_dotdot", "trailing", "nested", "symlink", "preexisting"]
+FORMS = ["abs", "rel", "rel_dotdot", "trailing", "nested", "symlink", "symlink_deep", "preexisting"]
 CACHES = [None, False, True, 0, -1, 2]
 
 
@@ -70,6 +70,14 @@ def location(base, name, form, cwd):
         real = os.path.join(base, "real_" + name)
         os.makedirs(real, exist_ok=True)
         lnk = os.path.join(base, "lnk_" + name)
+        if not os.path.lexists(lnk):
+            os.symlink(real, lnk)
+        return os.path.join(lnk, name), os.path.join(lnk, name)
+    if form == "symlink_deep":
+        # the directory is reached through a link whose real target sits at another depth of the tree
+        real = os.path.join(base, "volumes", "disk0", "part_" + name)
+        os.makedirs(real, exist_ok=True)
+        lnk = os.path.join(base, "mnt_" + name)
         if not os.path.lexists(lnk):
             os.symlink(real, lnk)
         return os.path.join(lnk, name), os.path.join(lnk, name)
